@@ -1123,6 +1123,8 @@ func planCanon(p *Prog, stdlib, methods bool) canonPlan {
 	}
 	if methods {
 		planMethodRestore(p, in, &plan)
+		planAnchorRestore(p, in, &plan, map[*ast.FuncDecl]bool{})
+		planFieldRestore(p, in, &plan)
 		planParamObjects(p, in, &plan)
 	}
 	return plan
